@@ -36,3 +36,51 @@ func TestHistories(t *testing.T) {
 	pbt.Main(t, pbt.Spec[histeng.History]{ID: "C01", Run: run,
 		Gen: func(t *rapid.T) histeng.History { return histeng.GenHistory(t, profile) }})
 }
+
+// genThereAndBack aims at one shape that the free mix of steps reaches rarely: a target goes S1 -> S2 -> S1 -> S3 -> S1 ...
+// with a full build after every move. From the second visit on, S1's outputs in the workspace came out of the cache;
+// S2's/S3's commands then write over them (most of them in place, as `cmd > out` does), and every return to S1 must
+// still be served S1's bytes. Outputs that share storage with the cache (links instead of copies), entries that are
+// overwritten by a later state, or a restore that trusts what lies in the workspace all show up as stale bytes here.
+func genThereAndBack(t *rapid.T) histeng.History {
+	h := histeng.History{WS: histeng.GenWS(t, profile)}
+	for i := range h.WS.Targets {
+		tg := &h.WS.Targets[i]
+		if len(tg.OutFiles) > 0 && !tg.NoCommand && rapid.IntRange(0, 3).Draw(t, "inplace") > 0 {
+			tg.InPlace = true
+		}
+	}
+	build := func() histeng.Step {
+		o := &histeng.BuildOpts{Patterns: []string{"//..."}}
+		if rapid.IntRange(0, 3).Draw(t, "minimal") == 0 {
+			o.LoadOutputs = "minimal"
+		}
+		return histeng.Step{Kind: "build", Build: o}
+	}
+	h.Steps = append(h.Steps, histeng.Step{Kind: "build", Build: &histeng.BuildOpts{Patterns: []string{"//..."}}})
+	nt := rapid.IntRange(1, 2).Draw(t, "ntargets")
+	for k := 0; k < nt; k++ {
+		T, F := rapid.IntRange(0, 7).Draw(t, "t"), rapid.IntRange(0, 7).Draw(t, "f")
+		rounds := rapid.IntRange(2, 3).Draw(t, "rounds")
+		for r := 0; r < rounds; r++ {
+			var away, back histeng.Step
+			if rapid.IntRange(0, 3).Draw(t, "how") == 0 {
+				away = histeng.Step{Kind: "toggle-file", T: T, F: F, V: r}
+				back = away
+			} else {
+				away = histeng.Step{Kind: "edit-content", T: T, F: F, V: rapid.IntRange(0, 7).Draw(t, "v")}
+				back = histeng.Step{Kind: "restore-content", T: T, F: F}
+			}
+			h.Steps = append(h.Steps, away, build(), back, build())
+		}
+	}
+	h.Steps = append(h.Steps, histeng.Step{Kind: "build", Build: &histeng.BuildOpts{Patterns: []string{"//..."}}})
+	return h
+}
+
+func TestThereAndBack(t *testing.T) {
+	if os.Getenv("GROG_BIN") == "" {
+		t.Skip("GROG_BIN not set")
+	}
+	pbt.Main(t, pbt.Spec[histeng.History]{ID: "C01", Run: run, Gen: genThereAndBack})
+}
